@@ -311,6 +311,54 @@ def explore(ctx):
                              'payload': {'query': text, 'canonical_spelling': base[qi][0], 'input_lines': lines,
                                          'output': o['out'].decode('utf8', 'replace')[:600], 'canonical_output': ref['out'].decode('utf8', 'replace')[:600],
                                          'stderr': o['err'].decode('utf8', 'replace')[-300:]}})
+    # redundant parentheses on operator chains: a left- or right-nested chain of 3..5 operands written with the fewest
+    # parentheses, with every operation parenthesised, and with extra () around random sub-expressions
+    def leaf():
+        return rng.choice([col('a'), col('b'), col('g'), col('id'), lit(rng.choice([1, 2, 3, 5, 7, 10]))])
+
+    def chain():
+        kind = rng.choice(['addsub', 'addsub', 'muldiv', 'mixed', 'logic'])
+        if kind == 'logic':
+            mk = lambda: ('cmp', rng.choice(['gt', 'lt', 'eq', 'neq', 'gte']), leaf(), leaf())
+            ops = ['and', 'or']
+            node = lambda o, l, r: ('lg', o, l, r)
+        else:
+            mk = leaf
+            ops = {'addsub': ['add', 'sub', 'sub'], 'muldiv': ['mul', 'div', 'div'], 'mixed': ['add', 'sub', 'mul', 'div']}[kind]
+            node = lambda o, l, r: ('ar', o, l, r)
+        e = mk()
+        for _ in range(rng.randint(2, 4)):
+            e = node(rng.choice(ops), e, mk()) if rng.random() < 0.75 else node(rng.choice(ops), mk(), e)
+        return e
+
+    def extra_parens(e):
+        t = e[0]
+        if t in ('ar', 'cmp', 'lg'):
+            e = (t, e[1], extra_parens(e[2]), extra_parens(e[3]))
+        return ('paren', e) if rng.random() < 0.3 else e
+    nrows = [{'id': i, 'a': rng.choice([0, 1, 2, 3, 7, 10, -4]), 'b': rng.choice([1, 2, 5, 9, 2.5, -3]), 'g': rng.choice([1, 2, 3])} for i in range(8)]
+    ninp = ''.join(json.dumps(r) + '\n' for r in nrows).encode('utf8')
+    pjobs = []
+    pmeta = []
+    for i in range(60 if quick else 1500):
+        e = chain()
+        tmpl = rng.choice(['* | json | %s as r | fields id, r', '* | json | where (%s) > 2 or (%s) == true | fields id', '* | json | sum(%s) as t by g'])
+        texts = [qast.expr_text(e), qast.expr_text_full(e), qast.expr_text(extra_parens(e))]
+        for t in texts:
+            pjobs.append((tmpl.replace('%s', t), ninp, 'json', ()))
+            pmeta.append(i)
+    pouts = aglib.run_impl_many(pjobs)
+    paren_checked = 0
+    for k in range(0, len(pjobs), 3):
+        ref = pouts[k]
+        paren_checked += 1
+        for d in (1, 2):
+            o = pouts[k + d]
+            if o['rc'] != ref['rc'] or o['out'] != ref['out']:
+                failures.append({'kind': 'spec', 'what': 'redundant parentheses change the result of an operator chain (rc %s vs %s)' % (ref['rc'], o['rc']),
+                                 'payload': {'query': pjobs[k + d][0], 'canonical_spelling': pjobs[k][0], 'input_lines': [json.dumps(r) + '\n' for r in nrows],
+                                             'output': o['out'].decode('utf8', 'replace')[:400], 'canonical_output': ref['out'].decode('utf8', 'replace')[:400]}})
+                break
     # filters: whitespace runs between keywords, inside parentheses, quote style
     from props import c02
     flines = ['error a.b x-y\n', 'warn GET /index two words\n', 'ERROR foo_bar a*b x(y)\n', 'nothing here\n', 'Error user@host [z]\n']
@@ -449,12 +497,12 @@ def explore(ctx):
     os.remove(fpath)
     os.rmdir(tmpd)
     cov = {
-        'evaluations': len(jobs) + len(sample) + cli_checked + len(alias_cases) + len(fjobs) + len(coq_jobs), 'filter_spellings': len(fjobs), 'distinct_nontrivial': len(nontrivial),
+        'evaluations': len(jobs) + len(sample) + len(pjobs) + cli_checked + len(alias_cases) + len(fjobs) + len(coq_jobs), 'filter_spellings': len(fjobs), 'distinct_nontrivial': len(nontrivial),
         'rule': '%d query ASTs, each in %d spellings drawn by rewriting the canonical text outside string literals: whitespace runs / no whitespace where optional / line breaks, quote style, '
                 'avg/average, pNN/pctNN/percentileNN, !=/<>, and/&&, or/||, asc/ascending/(none), desc/dsc/descending, fields +/only/include/(none) and -/except/drop, bare limit vs limit 10, '
-                'count vs count as _count, explicit default names for every aggregate/timeslice/total, ["name"] vs bare name, from before/after as, redundant parentheses, whitespace inside parentheses and after `!`, sort by x vs sort by x asc; byte comparison of -o json output; aliases vs expansions; --format vs -o format=, --file vs stdin; the grammar model on the same spellings; '
+                'count vs count as _count, explicit default names for every aggregate/timeslice/total, ["name"] vs bare name, from before/after as, redundant parentheses, whitespace inside parentheses and after `!`, sort by x vs sort by x asc; byte comparison of -o json output; operator chains (+ - * / and or, left- and right-nested, 3..5 operands) bare / fully parenthesised / with random extra parentheses; aliases vs expansions; --format vs -o format=, --file vs stdin; the grammar model on the same spellings; '
                 'non-trivial = >= 3 spelling choices exercised' % (len(base), nsp),
         'samples': [{'canonical': base[0][0], 'spelling': meta[1][1]}, {'canonical': base[1][0], 'spelling': meta[nsp + 2][1]}],
-        'spellings': len(jobs) - len(base), 'cli_cases': cli_checked, 'quote_style_cases': quote_checked, 'coq_printer_spellings': pp_wf, 'coq_printer_filter_spellings': len(fcoq), 'coq_printer_outside_wf': pp_notwf,
+        'spellings': len(jobs) - len(base), 'operator_chains_in_three_parenthesisations': paren_checked, 'cli_cases': cli_checked, 'quote_style_cases': quote_checked, 'coq_printer_spellings': pp_wf, 'coq_printer_filter_spellings': len(fcoq), 'coq_printer_outside_wf': pp_notwf,
     }
     return {'coverage': cov, 'failures': failures}
